@@ -78,7 +78,8 @@ def exported_names(tree):
 def native_check(ctx, rule):
     M = ctx.model
     native = M.module_assigns[M.CORE].get("native")
-    ok = native is not None and ast.unparse(native) in ("sys.byteorder == 'little'", "(sys.byteorder == 'little')")
+    ok = isinstance(native, ast.Compare) and len(native.ops) == 1 and isinstance(native.ops[0], ast.Eq) and \
+        sorted(ast.unparse(x) for x in (native.left, native.comparators[0])) == ["'little'", "sys.byteorder"]
     ctx.ob(rule, "native", ok, "native means little-endian host: native = (sys.byteorder == 'little'), so Int24*n follow the struct-based Int*n aliases", key="native",
            loc="%s:%d" % (M.CORE, native.lineno) if native is not None else M.CORE)
 
